@@ -269,7 +269,7 @@ Section PROOFS.
   Definition drop_g (names vals : list string) (e : entry) : entry :=
     match drop_f V fpf names vals e with Ok e' => e' | Fail _ => e end.
   Lemma drop_total names vals e : drop_f V fpf names vals e = Ok (drop_g names vals e).
-  Proof. unfold drop_g, drop_f. destruct (e_lbl V e); [|reflexivity]. destruct (Nat.eqb _ _); reflexivity. Qed.
+  Proof. unfold drop_g, drop_f. destruct (e_lbl V e); reflexivity. Qed.
   Definition by_without_g (by_ : bool) (names : list string) (e : entry) : entry :=
     match by_without_f V fpf by_ names e with Ok e' => e' | Fail _ => e end.
   Lemma by_without_total by_ names e : by_without_f V fpf by_ names e = Ok (by_without_g by_ names e).
@@ -676,12 +676,8 @@ Section PROOFS.
     - (* drop *) apply compat_map.
       + intros e e' He [Hg1 [m Hm]]. destruct (erase_fields e e' He) as [Ht [Hl [Hs [Hv Hr]]]].
         unfold drop_g, drop_f. rewrite Hm. unfold with_lbl, lbl_of. rewrite <- Hl, Hm.
-        set (p := fun kv : string * string => negb (drop_hit (fst kv) (snd kv) names vals)).
-        destruct (Nat.eqb_spec (List.length (filter p m)) (List.length m)) as [E|E].
-        * rewrite (filter_length_eq p m E). split; [unfold InternalEngine.erase; cbn; now rewrite Ht, Hm, Hs, Hv, Hr|].
-          split; [exact Hg1|exists m; exact Hm].
-        * split; [unfold InternalEngine.erase; cbn; now rewrite Ht, Hs, Hv, Hr|]. split; [exact Hg1|eexists; reflexivity].
-      + intros e. unfold drop_g, drop_f. destruct (e_lbl V e); [|reflexivity]. destruct (Nat.eqb _ _); reflexivity.
+        split; [unfold InternalEngine.erase; cbn; now rewrite Ht, Hs, Hv, Hr|]. split; [exact Hg1|eexists; reflexivity].
+      + intros e. unfold drop_g, drop_f. destruct (e_lbl V e); reflexivity.
     - (* by / without *) apply compat_map.
       + intros e e' He [Hg1 [m Hm]]. destruct (erase_fields e e' He) as [Ht [Hl [Hs [Hv Hr]]]].
         unfold by_without_g, by_without_f. rewrite Hm. unfold with_lbl, lbl_of. rewrite <- Hl, Hm.
